@@ -10,11 +10,18 @@ import sched as S
 
 ID = "C15"
 LEAN_MODEL_TARGETS = ["drv_c15"]
-LEAN_PROOF_TARGETS = ["PyroProps.C15"]
+LEAN_PROOF_TARGETS = ["PyroProps.C15Src", "PyroProps.C15"]
 AUDIT_FILES = ["PyroModel/Lock.lean", "PyroModel/NsOps.lean", "PyroModel/Gen/C15.lean", "PyroModel/LockSkeleton.lean", "PyroProofs/Lock.lean",
-               "PyroProps/C15.lean"]
+               "PyroProps/C15.lean", "PyroModel/LockRelease.lean", "PyroModel/NsOpsEmb.lean", "PyroModel/Gen/C15Src.lean", "PyroProps/C15Src.lean",
+               # read-only imports from C14 (the transcription's vocabulary and the proof that it equals the hand-written methods)
+               "PyroProofs/NsSrcTr.lean", "PyroModel/NameServer.lean", "PyroModel/NsSrc.lean",
+               "PyroProofs/NSLists.lean", "PyroProofs/NSRefine.lean", "PyroProofs/NSMem.lean"]
 THEOREMS = ["Pyro.C15.C15_gen_locked", "Pyro.C15.C15_source_every_access_locked", "Pyro.C15.C15_linearizable", "Pyro.C15.C15_results_explained",
-            "Pyro.C15.C15_safe_register_once", "Pyro.C15.C15_remove_once", "Pyro.C15.C15_failed_no_effect", "Pyro.Lock.atomic", "Pyro.Lock.book"]
+            "Pyro.C15.C15_safe_register_once", "Pyro.C15.C15_remove_once", "Pyro.C15.C15_failed_no_effect", "Pyro.Lock.atomic", "Pyro.Lock.book",
+            "Pyro.C15.C15_gen_released", "Pyro.C15.C15_source_lock_released_on_all_paths",
+            "Pyro.C15.Tr.C14_ns_translated", "Pyro.C15.C15_ops_translated", "Pyro.C15.C15_source_seq_translated", "Pyro.C15.C15_source_linearizable",
+            "Pyro.C15.C15_source_results_explained", "Pyro.C15.C15_source_failed_no_effect", "Pyro.C15.C15_source_safe_register_once",
+            "Pyro.C15.C15_source_remove_once", "Pyro.LockRelease.released_sound"]
 SUITES = ["sequential", "interleaved"]
 RULE = ("(a) sequential histories of register/set_metadata/remove/remove-prefix/lookup/count/list on the real NameServer vs the "
         "model; (b) small sets of concurrent client programs (1-2 ops each, shared names) run on the REAL NameServer under the "
@@ -137,14 +144,30 @@ def extract():
                         lock_kind = getattr(node.value.func, "attr", getattr(node.value.func, "id", "unknown"))
     sks = lock_skeletons(cls)
     rows = ",\n  ".join('("%s", %s)' % (k, v) for k, v in sks.items())
+    # the dual skeleton: what every public method does to the lock itself on every way out (normal, return, exception)
+    from props import c15_rel
+    rel = c15_rel.release_skeletons(cls, nameserver)       # raises c15_rel.Unrecognised: the tie is reported as broken
+    rel_rows = ",\n  ".join('("%s", %s)' % (k, v) for k, v in rel.items())
+    # the method BODIES: the transcription of NameServer's methods (translator of C14, imported read-only) into this check's
+    # own generated module; PyroProofs/NsSrcTr.lean proves it equal to the hand-written methods, PyroProps/C15Src.lean that NsOps computes the same
+    from props import c14_tr
+    src = c14_tr.translate(nameserver)                     # raises c14_tr.Untranslatable: broken tie
+    src = src.replace("Pyro.Gen.C14Src", "Pyro.Gen.C15Src").replace(
+        "-- GENERATED by harness/props/c14_tr.py", "-- GENERATED by harness/props/c15.py (translator: harness/props/c14_tr.py)")
+    common.write_if_changed(os.path.join(common.LEAN, "PyroModel", "Gen", "C15Src.lean"), src)
     return f"""-- GENERATED by harness/props/c15.py from Pyro5/nameserver.py — do not edit
 import PyroModel.LockSkeleton
+import PyroModel.LockRelease
 namespace Pyro.Gen.C15
 open Pyro.LockSkeleton
 /-- lock skeleton of every public method of NameServer (calls of its own helper methods inlined) -/
 def nsSkeletons : List (String × Sk) := [
   {rows}]
 def lockKind : String := "{lock_kind}"
+/-- release skeleton of every public method (harness/props/c15_rel.py): acquire / release of `self.lock`, the points where an
+    exception may leave, returns, try/finally/except structure; `with self.lock:` = acquire; try body finally release -/
+def nsRelease : List (String × Pyro.LockRelease.Rk) := [
+  {rel_rows}]
 end Pyro.Gen.C15
 """
 
